@@ -137,9 +137,10 @@ func (l *Listener) Stop(d time.Duration) error {
 
 func tooMany(c net.Conn) {
 	w := bufio.NewWriter(c)
-	w.WriteString("HTTP/1.1 429 Too Many Requests\n")
-	w.WriteString("Content-Length: 0\n")
-	w.WriteString("Connection: close\n")
+	w.WriteString("HTTP/1.1 429 Too Many Requests\r\n")
+	w.WriteString("Content-Length: 0\r\n")
+	w.WriteString("Connection: close\r\n")
+	w.WriteString("\r\n")
 	w.Flush()
 	c.Close()
 }
@@ -189,6 +190,12 @@ func (l *Listener) Accept() (c net.Conn, err error) {
 		if maxed {
 			err := fmt.Errorf("too many connections: %d", n)
 			core.Log(core.WARN, l.ctx, "service.Listener", "error", err)
+			// There is no connection yet (c is nil): take the
+			// next one in order to tell its client.
+			c, err = l.l.Accept()
+			if err != nil {
+				return nil, err
+			}
 			tooMany(c)
 			return nil, TooManyConnections
 		}
